@@ -208,11 +208,21 @@ def main(prop, tier, seed, replay=None):
         res["violations"] = corpus_viol + res["violations"]
         res["disagreements"] = corpus_dis + res["disagreements"]
         res.setdefault("coverage", {})["corpus_entries"] = corpus_n
-    except Exception:
-        print("INFRA check crashed:\n" + traceback.format_exc())
-        if ctx.model is not None:
-            ctx.model.close()
-        return 2
+    except Exception as ex:
+        tb = traceback.format_exc()
+        repo = os.path.abspath(os.environ.get("NPTDMS_REPO", "/repo"))
+        frames = traceback.extract_tb(ex.__traceback__)
+        if any(os.path.abspath(fr.filename).startswith(repo + os.sep) for fr in frames):
+            # raised inside the code under test on an input the harness did not guard: that is a verdict, not an infrastructure failure
+            inside = [fr for fr in frames if os.path.abspath(fr.filename).startswith(repo + os.sep)][-1]
+            res = dict(violations=[Violation("unhandled %s from the code under test at %s:%d (%s) while checking generated inputs: %s" % (
+                type(ex).__name__, os.path.relpath(inside.filename, repo), inside.lineno, inside.name, str(ex)[:200]),
+                dict(kind="exception", traceback=tb[-3000:], seed=seed, tier=tier))], disagreements=[], coverage={})
+        else:
+            print("INFRA check crashed:\n" + tb)
+            if ctx.model is not None:
+                ctx.model.close()
+            return 2
     violations.extend(res.get("violations", []))
     disagreements = res.get("disagreements", [])
 
